@@ -1685,6 +1685,8 @@ theorem handleDoubleSign_cases {s s' : State} {a : Addr} {ih et pw : Int}
   rename_i htomb
   split at hs
   · simp at hs
+  split at hs
+  · simp at hs
   rename_i s2 hs2
   split at hs
   · simp at hs
@@ -2106,6 +2108,8 @@ theorem handle_unstake_shape {s s' : State} {a : Addr} (h : handle s (.unstake a
   split at h
   · simp at h
   rename_i hmin
+  split at h
+  · simp at h
   simp only [Option.some.injEq] at h
   exact ⟨v, hv, by simpa using hst, by omega, h.symm⟩
 
